@@ -405,3 +405,36 @@ extern int g_pred[2]; extern _Bool g_verdict[2];
   __CPROVER_ensures((g_b0 && STAYED(0) && STAYED(1)) ==> self->queueList.w[0] < self->queueList.w[1]) \
   __CPROVER_ensures((g_b1 && STAYED(0) && STAYED(1)) ==> self->queueList.w[1] < self->queueList.w[0]) \
   __CPROVER_ensures((g_b0 && g_disp[1] == 1 && __CPROVER_old(self->queueList.w[1]) >= 0 && DONE_M(1)) ==> DONE_M(0))   /* an event is not dispatched before one queued ahead of it */
+
+/* ================================================================== C10: queue constructors (eventqueue.h:116-140)
+ * statement: every queue so obtained "reports empty until something is enqueued into it, and waiting, notification and
+ * processing work" -- whatever the object's storage held before (*self is completely unconstrained here) */
+#define QCTOR_POST (self->queueEmptyCounter == 0 && self->queueNotifyCounter == 0 && self->queueList.len == 0 && self->freeList.len == 0 && \
+                    self->queueList.w[0] < 0 && self->queueList.w[1] < 0 && self->freeList.w[0] < 0 && self->freeList.w[1] < 0 && NOLOCKS(self) && self->queueListConditionVariable.notified == 0)
+#define CONTRACT_DispatcherBase_ctor __CPROVER_assigns(self->opaque)
+#define CONTRACT_DispatcherBase_ctor_copy __CPROVER_assigns(self->opaque)
+#define CONTRACT_DispatcherBase_ctor_move __CPROVER_assigns(self->opaque, a0->opaque)
+#define CONTRACT_DispatcherBase_assign_copy __CPROVER_assigns(self->opaque)
+#define CONTRACT_DispatcherBase_assign_move __CPROVER_assigns(self->opaque, a0->opaque)
+#define CONTRACT_Q_ctor \
+  __CPROVER_requires(__CPROVER_is_fresh(self, sizeof(Q))) \
+  __CPROVER_assigns(__CPROVER_object_whole(self)) \
+  __CPROVER_ensures(QCTOR_POST)
+#define CONTRACT_Q_ctor_copy \
+  __CPROVER_requires(__CPROVER_is_fresh(self, sizeof(Q)) && __CPROVER_is_fresh(other, sizeof(Q))) \
+  __CPROVER_assigns(__CPROVER_object_whole(self)) \
+  __CPROVER_ensures(QCTOR_POST)      /* and: no pending events are copied; the source is not written (frame) */
+#define CONTRACT_Q_ctor_move \
+  __CPROVER_requires(__CPROVER_is_fresh(self, sizeof(Q)) && __CPROVER_is_fresh(other, sizeof(Q))) \
+  __CPROVER_assigns(__CPROVER_object_whole(self), other->base_DispatcherBase.opaque) \
+  __CPROVER_ensures(QCTOR_POST)
+/* assignment transfers / copies listeners only: the queue state of the destination is untouched */
+#define CONTRACT_Q_assign_copy \
+  __CPROVER_requires(__CPROVER_is_fresh(self, sizeof(Q)) && (PEQQ(other, self) || __CPROVER_is_fresh(other, sizeof(Q)))) \
+  __CPROVER_assigns(self->base_DispatcherBase.opaque) \
+  __CPROVER_ensures(__CPROVER_return_value == self)
+#define CONTRACT_Q_assign_move \
+  __CPROVER_requires(__CPROVER_is_fresh(self, sizeof(Q)) && (PEQQ(other, self) || __CPROVER_is_fresh(other, sizeof(Q)))) \
+  __CPROVER_assigns(self->base_DispatcherBase.opaque, other->base_DispatcherBase.opaque) \
+  __CPROVER_ensures(__CPROVER_return_value == self)
+#define PEQQ(a, b) __CPROVER_pointer_equals(a, b)
